@@ -1153,6 +1153,7 @@ package rtcp
 //@     invariant[C06] isSuffix(rawData, old(rawData))
 //@     invariant[C06] (len(packets) == 0) <==> sameSlice(rawData, old(rawData))
 //@     invariant len(packets) >= 0
+//@     exit[C06] consumed: len(rawData) == 0
 //@     decreases len(rawData)
 
 //@ func Marshal(packets []Packet) (result []byte, err error)
@@ -1205,6 +1206,7 @@ package rtcp
 //@   ensures[C11] validates: err == nil ==> specCompoundValid(*c)
 //@   loop 1
 //@     invariant isSuffix(rawData, old(rawData)) && len(out) >= 0
+//@     exit[C06,C11] consumed: len(rawData) == 0
 //@     decreases len(rawData)
 
 //@ func (c CompoundPacket) MarshalSize() (result int)
